@@ -173,7 +173,7 @@ def main(ck, tier, w):
         n = len(obs['lay'])
         coin = rng.choice(['bitcoin', 'bitcoin', 'namecoin', 'litecoin'])
         big = rng.random() < 0.3
-        txs_fn = (lambda h, c: chains.std_txs(h, c) + [fat_tx(h, rng_bytes=40000)]) if big else chains.std_txs
+        txs_fn = (lambda h, c: chains.std_txs(h, c) + [fat_tx(h, rng_bytes=[40000, 70000, 140000][(i + h) % 3])]) if big else chains.std_txs
         blocks = chains.std_chain(n, coin, txs_fn=txs_fn)
         placement = [(p['file'], p['slot']) for p in obs['lay']]
         fileno = {f: f for f in range(10)}
